@@ -25,7 +25,7 @@ class TaskErr(Exception):
 
 
 class FutRun(object):
-    def __init__(self, raises, nreg, cbkinds):
+    def __init__(self, raises, nreg, cbkinds, retobj=None):
         self.raises, self.nreg, self.cbkinds = raises, nreg, cbkinds
         S = self.S = detsched.Sched()
         H = self.H = Hooks()
@@ -36,7 +36,7 @@ class FutRun(object):
         tp = self.tp = detsched.load_module_with_shims("jsonrpclib.threadpool", th, qm)
         H.srcfile = tp.__file__
         self.taskdone = False
-        self.obj, self.exc = object(), TaskErr("task failed")
+        self.obj, self.exc = (retobj if retobj is not None else object()), TaskErr("task failed")
         self.obs_td = False
         self.reg = {r: {"call": 0, "ret": 0} for r in range(1, nreg + 1)}
         self.completion = 0
@@ -219,7 +219,9 @@ def random_trace(seed):
     raises = rnd.random() < 0.5
     nreg = rnd.choice([1, 1, 2, 2, 3])
     kinds = [rnd.choice(["returns", "returns", "raises", "arity"]) for _ in range(nreg)]
-    R = FutRun(raises, nreg, kinds)
+    # the task returns "any object": an ordinary object, an Exception instance (returned, not raised), falsy values
+    retobj = rnd.choice([None, None, ValueError("returned, not raised"), KeyError("k"), 0, "", [], False, TaskErr("returned")])
+    R = FutRun(raises, nreg, kinds, retobj)
     obs = [rnd.choice(["done", "result"]) for _ in range(rnd.randint(0, 4))]
     R.spawn_all(obs)
     S = R.S
